@@ -25,8 +25,8 @@ import (
 // must be identical. The arguments handed to an operation are snapshotted as well.
 
 var evC01 = ev.New("C01", "initial table (all five column types, nulls, 0..40 rows) and a sequence of 1-25 operations, each applied to any member of the growing family of frames/groupers/views "+
-	"(Filter, Sort, Slice, Select, Drop, Copy, Apply, FilteredApply, Eval, WithRowNums, Distinct, GroupBy, Aggregate, QFrames, typed views, ToCSV/ToJSON/String/Equals, ~10% invalid requests, "+
-	"scribbling over returned slices); oracle: invariant over the history - every earlier member re-observed after every step, every argument compared before/after; "+
+	"(Filter, Sort, Slice, Select, Drop, Copy, Apply, FilteredApply, Eval, WithRowNums, Distinct, GroupBy, Aggregate, QFrames, typed views, ToCSV/ToJSON/String/Equals, Append of int columns, user aggregations working in place on their argument, ~10% invalid requests, "+
+	"scribbling over returned slices); oracle: invariant over the history - every earlier member re-observed after every step (cells, names, types, Err, and behaviour probes: overwriting each column / re-ordering all columns gives the layout it always gave), every argument compared before/after; "+
 	"non-trivial = the sequence has a step whose receiver shares its index array (Select/Drop/Copy/Apply/Eval/Slice lineage) with another live member; distinct = FNV-64 of (table, step list)")
 
 type member struct {
